@@ -11,6 +11,7 @@ import (
 
 	"github.com/dgraph-io/badger/v2"
 	"github.com/vipnode/vipnode/v2/pool/store"
+	"github.com/vipnode/vipnode/v2/simhook"
 )
 
 // TODO: Set reasonable expiration values?
@@ -67,6 +68,7 @@ func (s *badgerStore) CheckAndSaveNonce(ID string, nonce int64) error {
 		} else if err != badger.ErrKeyNotFound {
 			return err
 		}
+		simhook.Yield("badger.CheckAndSaveNonce.read")
 
 		if s.nonceExpire > 0 {
 			// The saved nonce must outlive every request it can still
@@ -142,6 +144,7 @@ func (s *badgerStore) AddNodeBalance(nodeID store.NodeID, credit *big.Int) error
 			return err
 		}
 		balance.Credit.Add(&balance.Credit, credit)
+		simhook.Yield("badger.AddNodeBalance.read")
 
 		return setItem(txn, balanceKey, &balance)
 	})
@@ -173,6 +176,7 @@ func (s *badgerStore) AddAccountBalance(account store.Account, credit *big.Int) 
 		}
 		balance.Credit.Add(&balance.Credit, credit)
 		balance.Account = account
+		simhook.Yield("badger.AddAccountBalance.read")
 
 		return setItem(txn, balanceKey, &balance)
 	})
@@ -203,11 +207,15 @@ func (s *badgerStore) AddAccountNode(account store.Account, nodeID store.NodeID)
 			return err
 		}
 
+		simhook.Yield("badger.AddAccountNode.read")
+
 		// Authorize node
 		accountKey := []byte(fmt.Sprintf("vip:account:%s", nodeID))
 		if err := setItem(txn, accountKey, &account); err != nil {
 			return err
 		}
+
+		simhook.Yield("badger.AddAccountNode.linked")
 
 		// Merge trial and save
 		balance.Credit.Add(&balance.Credit, &trialBalance.Credit)
@@ -215,9 +223,11 @@ func (s *badgerStore) AddAccountNode(account store.Account, nodeID store.NodeID)
 		if err := setItem(txn, balanceKey, &balance); err != nil {
 			return err
 		}
+		simhook.Yield("badger.AddAccountNode.merged")
 		if err := txn.Delete(trialKey); err != nil {
 			return err
 		}
+		simhook.Yield("badger.AddAccountNode.done")
 		return nil
 	})
 }
@@ -359,6 +369,7 @@ func (s *badgerStore) SetNode(n store.Node) error {
 	}
 	key := []byte(fmt.Sprintf("vip:node:%s", n.ID))
 	return s.db.Update(func(txn *badger.Txn) error {
+		simhook.Yield("badger.SetNode.write")
 		return setItem(txn, key, &n)
 	})
 }
@@ -419,6 +430,7 @@ func (s *badgerStore) UpdateNodePeers(nodeID store.NodeID, peers []string, block
 		if err := setItem(txn, nodeKey, &node); err != nil {
 			return err
 		}
+		simhook.Yield("badger.UpdateNodePeers.checkedin")
 
 		// Update peers
 		// Note: Just because this node has seen some peer, it doesn't mean that
@@ -454,6 +466,7 @@ func (s *badgerStore) UpdateNodePeers(nodeID store.NodeID, peers []string, block
 			delete(nodePeers, peerID)
 			inactive = append(inactive, peerID)
 		}
+		simhook.Yield("badger.UpdateNodePeers.write")
 		return setItem(txn, peersKey, &nodePeers)
 	})
 	return
